@@ -86,10 +86,23 @@ def gen_model(rng):
             else:
                 al.insert(rng.randint(0, len(al)),
                           ["obs_draw", rng.randrange(len(stats)), rng.randrange(len(dists))])
-    return {"program": prog, "strategy": 3, "stats": stats, "dists": dists,
-            "listeners": listeners, "leaf_obs": rng.choice([None, 0, 1]),
-            "stream_seeds": [rng.randrange(1, 10 ** 9) for _ in range(n_streams)],
-            "probe": False}
+    model = {"program": prog, "strategy": 3, "stats": stats, "dists": dists,
+             "listeners": listeners, "leaf_obs": rng.choice([None, 0, 1]),
+             "stream_seeds": [rng.randrange(1, 10 ** 9) for _ in range(n_streams)],
+             "probe": False}
+    if rng.random() < 0.3:
+        # streams registered under ids (one generator may serve several ids), seeds
+        # of the replication set by an updater in construct_model
+        ids = ["default", "arrivals", "service", "routing", "a", "b"]
+        names = [[ids[k], rng.randrange(n_streams)]
+                 for k in range(rng.randint(2, min(6, n_streams + 3)))]
+        r = rng.choice([1, 2, 3, 7])
+        table = None
+        if rng.random() < 0.7:
+            table = {n: [rng.randrange(10 ** 9) for _ in range(r + 1)]
+                     for n, _ in names if rng.random() < 0.5}
+        model["seed_update"] = {"names": names, "table": table, "r": r}
+    return model
 
 
 def generate(seed, tier, idx=0):
